@@ -547,6 +547,15 @@ func (c *ctx) stmt(s ast.Stmt) []ast.Stmt {
 		if gd, ok := n.Decl.(*ast.GenDecl); ok && gd.Tok == token.VAR {
 			for _, sp := range gd.Specs {
 				vs := sp.(*ast.ValueSpec)
+				// var v, ok = <-ch
+				if len(vs.Names) == 2 && len(vs.Values) == 1 {
+					if u, ok := unparen(vs.Values[0]).(*ast.UnaryExpr); ok && u.Op == token.ARROW {
+						st.Recvs++
+						lg.expr(u.X, false)
+						vs.Values[0] = call(sel("_vrt", "Recv2"), c.chanArg(u.X), strLit(c.site(u.Pos())))
+						continue
+					}
+				}
 				for i, v := range vs.Values {
 					lg.expr(v, false)
 					vs.Values[i] = c.expr(v)
